@@ -4,7 +4,8 @@ from mapgen import *
 
 PROP = "C07"
 CONSTS = []
-THEOREMS = {"SmVerif.Props.C04": ["SmVerif.C04.c07_lookup_same_line", "SmVerif.C04.c07_lookup_other", "SmVerif.C04.c04_lookup_safe"]}
+THEOREMS = {"SmVerif.Props.C04": ["SmVerif.C04.c07_lookup_same_line", "SmVerif.C04.c07_lookup_other", "SmVerif.C04.c04_lookup_safe"],
+            "SmVerif.Props.C01": ["SmVerif.C01.c07_flags_roundtrip", "SmVerif.C01.c07_rmi_codec", "SmVerif.C01.c01_mappings_roundtrip"]}
 TRUSTED = BASE_TRUST + ["model: encode_rmi/serialize_range_mappings (encoder.rs), decode_rmi + range bit lookup (decoder.rs), lookup_token (types.rs); bitvec Lsb0 load/store_le on a little-endian target assumed"]
 ASSUMPTIONS = ["token lists are handed to SourceMap::new already ordered by generated position whenever two tokens share a position (sort_unstable leaves a sorted slice unchanged)"]
 RULE = ("every subset of range flags on lines of <= 6 tokens (exhaustive in thorough, sampled in quick), lines of up to 40 tokens with the flag first/last/at 15,16,17,31,32, "
